@@ -75,8 +75,8 @@ func classify(err error) string {
 		return "reject:src-black"
 	case strings.Contains(m, "target chain is blacked"):
 		return "reject:dst-black"
-	case strings.Contains(m, "is not registered"):
-		return "reject:unreg"
+	case strings.Contains(m, "ImportExTransfer, side chain ") && strings.Contains(m, " is not registered"):
+		return "reject:unreg" // the entrance's own registry gates (the BTC / ripple builders use similar words)
 	case strings.Contains(m, "not a supported router"):
 		return "reject:router"
 	case strings.Contains(m, "common.AddressParseFromBytes error"):
